@@ -233,7 +233,7 @@ def map_kwdoc(xs, ctx):
     """[(name, pretty_python_value(v, ctx)) for name, v in kwargs]"""
     if not xs:
         return []
-    return cons(KwDoc(xs[0].name, argdoc_of(AVal(xs[0].value), ctx)), map_kwdoc(xs[1:], ctx))
+    return cons(KwDoc(xs[0].name, doc_of(xs[0].value, ctx)), map_kwdoc(xs[1:], ctx))
 
 
 @C.spec([('ds', 'DocList'), ('d', 'Doc')], 'DocList')
@@ -502,8 +502,8 @@ def _gen_to_list(I, g):
         if not (isinstance(r, tuple) and len(r) == 2 and is_z3(r[0]) and r[0].eq(U.rget('Kw', 'name', x))):
             raise OutsideSubset('keyword generator element')
         d = r[1]
-        want = C.specs['argdoc_of']
-        if not (z3.is_app(d) and d.decl().eq(I.translator.decl_of(want)) and d.arg(0).eq(U.ctor('Arg', 'AVal')(U.rget('Kw', 'value', x)))
+        want = C.specs['doc_of']
+        if not (z3.is_app(d) and d.decl().eq(I.translator.decl_of(want)) and d.arg(0).eq(U.rget('Kw', 'value', x))
                 and free_of(d.arg(1), x)):
             raise OutsideSubset('keyword generator element is not pretty_python_value(v, c)')
         return S(I, 'map_kwdoc', it, d.arg(1))
@@ -817,3 +817,54 @@ def _call_cls(I, fn, args, kwargs, node):
 
 
 U.call_hooks = {'Cls': _call_cls}
+
+
+# ==== pretty_call_alt (C17, C11) ====================================================================================================
+@C.spec([('v', 'Val')], 'Val', opaque=True)
+def unwrapped(v):
+    """unwrap_comments(v)[0]: the value under comment() / trailing_comment() annotations"""
+    return v
+
+
+KW_IS_DICT = z3.Function('kwargs_is_dict', U.sort('KwList'), z3.BoolSort())       # whether kwargs was given as a dict / OrderedDict
+U.isinstance_hooks[('KwList', 'dict')] = lambda I, v: KW_IS_DICT(v)
+U.isinstance_hooks[('KwList', 'OrderedDict')] = lambda I, v: KW_IS_DICT(v)
+U.consts['DICT_KEY_ORDER_SUPPORTED'] = z3.Bool('DICT_KEY_ORDER_SUPPORTED')              # sys.version_info >= (3, 6): either way
+U.consts['UserWarning'] = z3.Const('CLS_UserWarning', CL)
+U.modules['warnings'] = {'warn': lambda I, a, k, n: None}
+U.method_hooks[('KwList', 'items')] = lambda I, obj, args, kwargs, node: obj            # the pairs of a dict, in its order
+
+
+def _h_unwrap_comments(I, args, kwargs, node):
+    v = I.coerce(args[0], 'Val')
+    return (S(I, 'unwrapped', v), ('opaque', 'comment', v), ('opaque', 'trailing_comment', v))
+
+
+C.extern[PP]['unwrap_comments'] = FuncVal('hook', 'unwrap_comments', _h_unwrap_comments)
+_HUG = ('(not kwargs and len(args) == 1 and (cls_of(unwrapped(args[0])) == list or cls_of(unwrapped(args[0])) == dict or '
+        'cls_of(unwrapped(args[0])) == tuple))')
+_pca = C.contract(
+    PP, 'pretty_call_alt', params={'ctx': 'Ctx', 'fn': 'Cls', 'args': 'ValList', 'kwargs': 'KwList', 'trailing_comment': 'OptStr'},
+    returns='Doc',
+    ensures=[('depth-cut-placeholder-keeps-the-name', 'implies(ctx.depth_left <= 0, result == cat([ident(fn), LPAREN, ELLIPSIS, RPAREN]))'),
+             ('hugged-sole-argument-consumes-no-level', 'implies(ctx.depth_left > 0 and %s, result == fncall(ctx, ident(fn), '
+                                                        '[doc_of(args[0], ctx)], [], True, trailing_comment))' % _HUG),
+             ('name-then-every-positional-then-every-keyword-argument-in-order',
+              'implies(ctx.depth_left > 0 and not %s, result == fncall(ctx, ident(fn), map_doc(args, nested(ctx, MULTILINE_STRATEGY_HANG)), '
+              'map_kwdoc(kwargs, nested(ctx, MULTILINE_STRATEGY_HANG)), False, trailing_comment))' % _HUG)],
+    serves=['C17', 'C11'])
+_pca.defaults = {'args': [], 'kwargs': [], 'trailing_comment': None}
+C.assume('pretty_call_alt: args is a sequence of values, kwargs a sequence of (name, value) pairs or a dict (its items, in its order); '
+         'the callable is identified by general_identifier(fn) (named, not verified here)')
+
+
+def _h_sorted(I, args, kwargs, node):
+    """sorted(xs): some list of the same sort about which nothing is known (an unrelated order)"""
+    xs = args[0]
+    if is_z3(xs) and I.sort_of(xs) in ('KwList', 'ValList'):
+        sn = I.sort_of(xs)
+        return z3.Function('sorted_' + sn, U.sort(sn), U.sort(sn))(xs)
+    raise OutsideSubset('sorted() of %r' % (xs,))
+
+
+C.extern[PP]['sorted'] = FuncVal('hook', 'sorted', _h_sorted)
